@@ -294,6 +294,7 @@ CheckBuild(s, e) == IF s.ph # "idle" THEN "H:build-while-building" ELSE ""
 CheckRootBegin(s, e) ==
   IF s.ph # "start" THEN "H:root-begin"
   ELSE IF s.refuse THEN "RefusedCallRanUserCode"
+  ELSE IF e.recv # e.sent THEN "RootArgsPassed"     \* type-exact renderings of what build() was given / the function got
   ELSE ""
 
 CheckQ(s, e) ==
